@@ -132,16 +132,22 @@ static void run_audio(Case &c)
         int e = 0; API("opn2_atEnd", e = opn2_atEnd(B.d));
         if(e || got == 0 || B.cap.ev.size() - e0 >= 12) break;
     }
+    // nominal song times of the events behind the target, from the file (the position clock the library reports at hand-over time
+    // has already run on by the length of the call)
+    std::vector<double> after_t; for(size_t i = 0; i < times.size(); i++) if(times[i] > t) after_t.push_back(times[i]);
+    size_t k = 0;
     for(size_t i = e0; i < B.cap.ev.size() && g_w.violations_in_case == 0; i++)
     {
         const DEv &e = B.cap.ev[i];
-        if(e.song_t < t) continue;
-        double ref = (double)rate * (e.song_t - t) / mult, F = (double)((long long)e.frames - F0), slack = 1.0 + ref * 1e-9;
+        if((e.type == 0xFF && e.subtype == 0x2F) || is_song_begin_marker(e)) continue;
+        if(k >= after_t.size()) break;
+        const double T_e = after_t[k++];
+        double ref = (double)rate * (T_e - t) / mult, F = (double)((long long)e.frames - F0), slack = 1.0 + ref * 1e-9;
         judged++;
         if(F > ref + 1.0 + slack)
-            c.violation(rewind ? "oracle:C08:event-late-after-rewind:audio" : "oracle:C08:event-late-after-seek:audio", vfmt("%s (song time %.9f) took effect %.0f frames after the seek, its song time is %.2f frames behind the target; %s", e.str().c_str(), e.song_t, F, ref, ctx.c_str()));
+            c.violation(rewind ? "oracle:C08:event-late-after-rewind:audio" : "oracle:C08:event-late-after-seek:audio", vfmt("%s (song time %.9f) took effect %.0f frames after the seek, its song time is %.2f frames behind the target; %s", e.str().c_str(), T_e, F, ref, ctx.c_str()));
         else if(F < ref - 512.0 - 1.0 - slack)
-            c.violation(rewind ? "oracle:C08:event-early-after-rewind:audio" : "oracle:C08:event-early-after-seek:audio", vfmt("%s (song time %.9f) took effect %.0f frames after the seek, its song time is %.2f frames behind the target (more than one 512-frame period early); %s", e.str().c_str(), e.song_t, F, ref, ctx.c_str()));
+            c.violation(rewind ? "oracle:C08:event-early-after-rewind:audio" : "oracle:C08:event-early-after-seek:audio", vfmt("%s (song time %.9f) took effect %.0f frames after the seek, its song time is %.2f frames behind the target (more than one 512-frame period early); %s", e.str().c_str(), T_e, F, ref, ctx.c_str()));
     }
     count("events_timed_after_seek", (long long)judged);
     c.nontrivial = judged >= 1;
